@@ -597,7 +597,7 @@ func (c *leafCtx) assignPath(lhs ast.Expr, e string) (string, string, bool) {
 		if !strings.HasPrefix(t, "S_") {
 			return "", "", false
 		}
-		return c.assignPath(x.X, "{ "+cur+" with "+x.Sel.Name+" := "+e+" }")
+		return c.assignPath(x.X, "{ "+cur+" with "+lf(x.Sel.Name)+" := "+e+" }")
 	case *ast.StarExpr:
 		return c.assignPath(x.X, e)
 	}
@@ -1400,7 +1400,7 @@ func (c *leafCtx) zero(t string) string {
 			if z == "" {
 				return ""
 			}
-			parts = append(parts, f[0]+" := "+z)
+			parts = append(parts, lf(f[0])+" := "+z)
 		}
 		c.useStruct(strings.TrimPrefix(t, "S_"))
 		return "{ " + strings.Join(parts, ", ") + " : " + t + " }"
@@ -1733,7 +1733,7 @@ func (c *leafCtx) expr7(e ast.Expr, want string) (string, string, bool) {
 					c.fail("field %s has no zero value in the subset", f[0])
 				}
 			}
-			parts = append(parts, f[0]+" := "+v)
+			parts = append(parts, lf(f[0])+" := "+v)
 		}
 		c.useStruct(tn)
 		return "{ " + strings.Join(parts, ", ") + " : S_" + tn + " }", "S_" + tn, true
@@ -2230,6 +2230,16 @@ var leaves7 = []leaf7Spec{
 	{"net/ntp", "Packet.SetMode", "ntp_Packet_SetMode", "LeafNtp"},
 	{"net/ntp", "EncodePacket", "ntp_EncodePacket", "LeafNtp"},
 	{"net/ntp", "DecodePacket", "ntp_DecodePacket", "LeafNtp"},
+	{"net/csptp", "TimestampFromTime", "csptp_TimestampFromTime", "LeafCsptp"},
+	{"net/csptp", "TimeFromTimestamp", "csptp_TimeFromTimestamp", "LeafCsptp"},
+	{"net/csptp", "EncodedRequestTLVLength", "csptp_EncodedRequestTLVLength", "LeafCsptp"},
+	{"net/csptp", "EncodedResponseTLVLength", "csptp_EncodedResponseTLVLength", "LeafCsptp"},
+	{"net/csptp", "EncodeMessage", "csptp_EncodeMessage", "LeafCsptp"},
+	{"net/csptp", "DecodeMessage", "csptp_DecodeMessage", "LeafCsptp"},
+	{"net/csptp", "EncodeRequestTLV", "csptp_EncodeRequestTLV", "LeafCsptp"},
+	{"net/csptp", "DecodeRequestTLV", "csptp_DecodeRequestTLV", "LeafCsptp"},
+	{"net/csptp", "EncodeResponseTLV", "csptp_EncodeResponseTLV", "LeafCsptp"},
+	{"net/csptp", "DecodeResponseTLV", "csptp_DecodeResponseTLV", "LeafCsptp"},
 }
 
 func emitLeaves7(repo string, parsed map[string][]*ast.File, fset *token.FileSet, leafPath string) {
@@ -2334,7 +2344,7 @@ func emitLeaves7(repo string, parsed map[string][]*ast.File, fset *token.FileSet
 				ds.structFile[n] = file
 				fmt.Fprintf(&body, "structure S_%s where\n", n)
 				for _, f := range ds.structs[n] {
-					fmt.Fprintf(&body, "  %s : %s\n", f[0], leanTypeName(f[1]))
+					fmt.Fprintf(&body, "  %s : %s\n", lf(f[0]), leanTypeName(f[1]))
 				}
 				body.WriteString("\n")
 			}
@@ -2426,4 +2436,13 @@ func findAliases(fd *ast.FuncDecl, c *leafCtx) map[string]string {
 		return true
 	})
 	return al
+}
+
+// lf: the Lean spelling of a Go field name (Lean keywords get a prime)
+func lf(n string) string {
+	switch n {
+	case "Type", "Sort", "Prop":
+		return n + "'"
+	}
+	return leanName(n)
 }
